@@ -233,6 +233,7 @@ func TestC10_SnapshotsAndProjection(t *testing.T) {
 		var lastID uint64
 		excluded, nearGate, bigTotal := false, false, false
 		olderMarked := false
+		balanceOnEarlierAccount := false
 		lastMsgID := map[string]uint64{}
 
 		observeSnapshots := func(t *rapid.T) {
@@ -462,6 +463,32 @@ func TestC10_SnapshotsAndProjection(t *testing.T) {
 				observeSnapshots(t)
 				log = append(log, fmt.Sprintf("accounts(v%d,%v)=%v", i, refs, res.TxResults[0].Code == 0))
 			},
+			// the balance of one of a validator's remote accounts is attested (what the evm module records when a balance
+			// attestation reaches consensus): the validator's registrations are what they were
+			"attestBalance": func(t *rapid.T) {
+				i := rapid.IntRange(0, n-1).Draw(t, "val")
+				var refs []string
+				for _, ch := range chains {
+					if has[i][ch.RefID] {
+						refs = append(refs, ch.RefID)
+					}
+				}
+				if len(refs) == 0 {
+					t.Skip("no accounts")
+				}
+				ref := rapid.SampledFrom(refs).Draw(t, "chain")
+				bal := new(big.Int).Lsh(big.NewInt(int64(rapid.IntRange(0, 1<<30).Draw(t, "balance"))), uint(rapid.IntRange(0, 60).Draw(t, "shift")))
+				err := c.App.ValsetKeeper.SetValidatorBalance(c.Ctx(), c.Vals[i].Val(), "evm", ref, chain.EthAddr(c.Vals[i].EthKeys[ref]).Hex(), bal)
+				// (refused e.g. for a jailed validator: nothing recorded, nothing changed)
+				if _, err := c.Block(); err != nil {
+					t.Fatalf("block: %v", err)
+				}
+				if err == nil && len(refs) > 1 && ref != refs[len(refs)-1] {
+					balanceOnEarlierAccount = true
+				}
+				observeSnapshots(t)
+				log = append(log, fmt.Sprintf("balance(v%d,%s of %v)=%v", i, ref, refs, err == nil))
+			},
 			"buildSnapshot": func(t *rapid.T) { build(t, "harness") },
 			"publishStored": func(t *rapid.T) {
 				if lastID == 0 || len(active) == 0 {
@@ -567,6 +594,9 @@ func TestC10_SnapshotsAndProjection(t *testing.T) {
 		}
 		if bigTotal {
 			labels = append(labels, "total>2^53")
+		}
+		if balanceOnEarlierAccount {
+			labels = append(labels, "balanceAttestedOnEarlierListedAccount")
 		}
 		if olderMarked {
 			labels = append(labels, "olderSnapshotMarkedLive")
